@@ -37,7 +37,7 @@ CLAIMED = {
             "Tight timeouts around the destination's next blocks, per-chain clock skew and jumps, early/stale/future proof heights, receive raced against timeout. Every accepted timeout is judged against the destination's REAL history kept by the simulator (state at the proof version, header time at the proof height; localhost: the executing block), every receive against the timeout at its block; nothing may be both received and timed out.",
             "deterministic simulation: clock skew/jumps + racing relays, ground-truth oracle over the destination's recorded history", "8 C04"),
     "C05": ("fault_enumeration",
-            "Malicious-relayer mutation sweep inside the simulator: for valid pending receive messages one or two fields chosen by reflection over the whole message (so new fields are covered) are mutated and the message is delivered alone in a block, at every packet/channel/client state the run reaches; a mutated message must not succeed, must not reach the application and must leave an empty store diff. Honest receives are checked against ground truth (source really stores the commitment of exactly these fields at the proven version; destination block before the timeout; channel not CLOSED). The single-field sweep is enumerated by (leaf index, variant) draws and its coverage (distinct field x mutation x state) is reported; the universal claim over all inputs is sampled.",
+            "Malicious-relayer mutation sweep inside the simulator: for valid pending receive messages one or two fields chosen by reflection over the whole message (so new fields are covered) are mutated and the message is delivered alone in a block, at every packet/channel/client state the run reaches; a mutated message must not succeed, must not reach the application and must leave an empty store diff. Honest receives are checked against ground truth (source really stores the commitment of exactly these fields at the proven version; destination block before the timeout; v1 channel end OPEN in the state the receive executes on, including channels whose confirmation is relayed late while packets are already in flight). The single-field sweep is enumerated by (leaf index, variant) draws and its coverage (distinct field x mutation x state) is reported; the universal claim over all inputs is sampled.",
             "deterministic simulation with a malicious-relayer fault model: reflective single/double field mutation of real relay messages, ground-truth + store-diff oracle", "8 C05"),
     "C06": ("fault_enumeration",
             "As C05 for acknowledgement messages (v1 ack bytes, v2 app-ack list order/length, packet fields, sequence, proof, height) and forged acks; honest acks are checked against the destination's real stored ack commitment at the proven version and the bytes handed to the sending application equal what the destination application produced.",
